@@ -90,6 +90,8 @@ type config struct {
 	filter    *filterProxy
 	gfaults   *grpcFaultInjector
 	proxyConn *grpc.ClientConn
+	gates     *gateSet      // in-process configurations with a back end (gate.go)
+	concSem   chan struct{} // bounds the groups of the concurrency slice running against this instance
 
 	pools [numPools][]*blob
 
@@ -188,16 +190,19 @@ func (c *config) start() error {
 		return c.startBinary()
 	}
 	o := lib.ServerOpts{MaxSize: cacheMaxSize, Storage: c.storage, MaxProxyBlobSize: int64(c.maxProxy)}
+	c.gates = newGateSet()
+	c.concSem = make(chan struct{}, concGroupsPerInstance)
 	switch c.backend {
 	case "fake":
 		c.fake = lib.NewFakeProxy(c.storage == "zstd")
-		c.filter = &filterProxy{inner: c.fake}
+		c.filter = &filterProxy{inner: &gateProxy{inner: c.fake, gates: c.gates}}
 	case "http":
 		st, err := newObjStore()
 		if err != nil {
 			return err
 		}
 		c.store = st
+		st.gates = c.gates
 		u, err := url.Parse(st.URL)
 		if err != nil {
 			return err
@@ -218,6 +223,7 @@ func (c *config) start() error {
 		// The proxy's own connection to the back end, with the harness's fault injector on it
 		// (transparent for digests without a scripted fault).
 		c.gfaults = newGrpcFaultInjector()
+		c.gfaults.gates = c.gates
 		conn, err := grpc.NewClient(b.GRPCAddr, grpc.WithTransportCredentials(insecure.NewCredentials()),
 			grpc.WithDefaultCallOptions(grpc.MaxCallRecvMsgSize(64*lib.MiB), grpc.MaxCallSendMsgSize(64*lib.MiB)),
 			grpc.WithChainUnaryInterceptor(c.gfaults.unary))
@@ -434,9 +440,11 @@ func (c *config) verifyPools() string {
 func run(r *lib.Run) {
 	r.SetRule("distinct tuple = (configuration [back end x storage mode], api [disk.Cache | gRPC], layout of position kinds, " +
 		"request length class, concurrent upload goroutines); configurations include three instances of the real executable " +
-		"(flags / environment / YAML); cases with scripted back-end faults add (configuration, api, fault, layout, request length class)")
+		"(flags / environment / YAML); cases with scripted back-end faults add (configuration, api, fault, layout, request length class); " +
+		"the concurrency slice adds per group (configuration, order of the phases, disturbance, number of calls, traffic) and per judged call the first tuple with layout = order/role")
 	r.Assume("back ends that cannot state sizes (HTTP back end in zstd layout) are not judged on positions where the back end holds the hash with a size other than the requested one (DESIGN C10 limits); those positions are counted under dontcare.*. A requested size larger than max_proxy_blob_size that equals the size the back end holds is judged with every back end (missing unless stored locally)")
 	r.Assume("fault slice: a digest the back end does not hold is absent whatever the back end answers to the existence check (error status, closed connection, late answer), so it must be reported missing; a digest the back end holds but answers for with an error is not judged (dontcare.*backend-exact-faulty); a FindMissingBlobs call that fails as a whole while a fault is scripted reports nothing and is not judged (fault.call-error)")
+	r.Assume("concurrency slice: the states of all digests are constant during a group of concurrent calls, so every FindMissingBlobs call that answers is judged with the same oracle as a lone call; a call whose client gave up (cancel, deadline) and that ended with an error is not judged; the outcome of the concurrent validated action-cache lookups is counted, not judged (C06). The bounded waits between the phases of a group only steer the schedule; whether the intended overlap was reached is reported under conc.schedule.*")
 	r.Extra("race_build", raceEnabled)
 
 	t0 := time.Now()
@@ -485,8 +493,9 @@ func run(r *lib.Run) {
 	}
 	r.Extra("binary_instances", instances)
 
-	n, nFault, nBinary := r.N(400, 10000), r.N(132, 1800), r.N(90, 1200)
+	n, nFault, nBinary, nConc := r.N(400, 10000), r.N(132, 1800), r.N(90, 1200), r.N(75, 1500)
 	if raceEnabled {
+		nConc = r.N(75, 375)
 		// The race build is there to watch the worker pool writing through pointers into the
 		// request slice; it is several times slower, so it gets a quarter of the thorough cases.
 		n, nFault, nBinary = r.N(400, 2500), r.N(132, 450), r.N(90, 300)
@@ -500,6 +509,7 @@ func run(r *lib.Run) {
 	r.Extra("requests", n)
 	r.Extra("requests_fault_slice", nFault)
 	r.Extra("requests_binary_slice", nBinary)
+	r.Extra("groups_concurrency_slice", nConc)
 
 	ch := make(chan int)
 	var wg sync.WaitGroup
@@ -545,6 +555,11 @@ func run(r *lib.Run) {
 	}
 	close(specs)
 	wg.Wait()
+
+	// The concurrency slice (on its own: its held back-end answers occupy back-end connections).
+	tConc := time.Now()
+	w.runConcSlice(nConc, workers)
+	r.Extra("conc_slice_s", time.Since(tConc).Seconds())
 
 	// Post-conditions of the run as a whole.
 	for _, c := range w.cfgs {
@@ -615,6 +630,8 @@ type rpos struct {
 	class string // <local class>+<back-end class>: the modelled state relative to the requested size
 	b     *blob
 	fault *fault // scripted for the back end's existence check of this digest
+	// concurrency slice: 1 + index into the group's shared set (0 = not from it)
+	shared int
 }
 
 // expectation is the oracle for one digest, written from the property
@@ -749,6 +766,8 @@ type caseRun struct {
 	pos  []rpos
 	perm [numPools][]int
 	cur  [numPools]int
+	// concurrency slice: the digests several concurrent calls of one group ask for
+	shared []*sharedDigest
 }
 
 func (cr *caseRun) fromPool(p int) *blob {
@@ -779,6 +798,13 @@ func (cr *caseRun) resolve(ctx context.Context) error {
 			}
 			continue
 		case kAbsent:
+			if ps.shared > 0 {
+				// A digest of the concurrency slice's shared set that is held nowhere.
+				sh := cr.shared[ps.shared-1]
+				rp.d = &pb.Digest{Hash: sh.hash, SizeBytes: sh.size}
+				rp.shared = ps.shared
+				break
+			}
 			rp.d = &pb.Digest{Hash: lib.RandHash(cr.rng), SizeBytes: int64(ps.size)}
 		case kAbsentFault:
 			rp.d = &pb.Digest{Hash: lib.RandHash(cr.rng), SizeBytes: int64(ps.size)}
@@ -791,7 +817,11 @@ func (cr *caseRun) resolve(ctx context.Context) error {
 			rp.d = &pb.Digest{Hash: lib.EmptySha256, SizeBytes: int64(1 + cr.rng.IntN(1000))}
 		default:
 			var b *blob
-			if ps.fresh {
+			if ps.shared > 0 {
+				// A blob of the concurrency slice's shared set (established before the calls start).
+				b = cr.shared[ps.shared-1].b
+				rp.shared = ps.shared
+			} else if ps.fresh {
 				content := lib.GenBlob(cr.rng, ps.size, "random", fmt.Sprintf("c10/%s/%d/%d", cfg.name, cs.idx, p))
 				b = &blob{hash: lib.Sha256Hex(content), size: int64(ps.size)}
 				switch ps.kind {
@@ -953,16 +983,34 @@ func (w *world) runCase(cs *caseSpec) {
 	}
 
 	stopTraffic := cr.startTraffic(ctx)
-	var resp []*pb.Digest
-	var err error
-	if cs.api == "disk" {
-		in := append([]*pb.Digest(nil), req...)
-		resp, err = cfg.front.Cache.FindMissingCasBlobs(ctx, in)
-	} else {
-		resp, err = cfg.front.FindMissing(ctx, req...)
-	}
+	resp, err := cr.call(ctx, req)
 	stopTraffic()
+	cr.judge(ctx, orig, resp, err, nil)
+}
 
+// call asks the front end for the missing digests of req through the case's api.
+func (cr *caseRun) call(ctx context.Context, req []*pb.Digest) ([]*pb.Digest, error) {
+	if cr.cs.api == "disk" {
+		in := append([]*pb.Digest(nil), req...)
+		return cr.cfg.front.Cache.FindMissingCasBlobs(ctx, in)
+	}
+	return cr.cfg.front.FindMissing(ctx, req...)
+}
+
+// judgeOpts is what a slice adds to the judgement of one call.
+type judgeOpts struct {
+	extra  map[string]any // added to every witness
+	posTag []string       // per request position: an extra component of the finding key ("" = none)
+}
+
+// judge compares the answer of one call with the oracle, position by position and as
+// a sequence. It returns, per request position, whether the digest was reported
+// missing; judged is false when the call gave no answer that can be judged.
+func (cr *caseRun) judge(ctx context.Context, orig, resp []*pb.Digest, err error, jo *judgeOpts) (reportedMissing []bool, judged bool) {
+	cs, cfg, r := cr.cs, cr.cfg, cr.w.r
+	if jo == nil {
+		jo = &judgeOpts{}
+	}
 	base := "C10:" + cfg.keyName
 	// The faults scripted in this case (name -> positions).
 	faultsOf := map[string]int{}
@@ -990,6 +1038,9 @@ func (w *world) runCase(cs *caseSpec) {
 			sort.Strings(names)
 			m["backend_faults"] = names
 		}
+		for k, v := range jo.extra {
+			m[k] = v
+		}
 		for k, v := range extra {
 			m[k] = v
 		}
@@ -999,21 +1050,21 @@ func (w *world) runCase(cs *caseSpec) {
 	if err != nil {
 		if ctx.Err() != nil || status.Code(err) == codes.DeadlineExceeded || errors.Is(err, context.DeadlineExceeded) {
 			r.Inconclusive(fmt.Sprintf("case %d (%s/%s): call timed out: %v", cs.idx, cfg.name, cs.api, err))
-			return
+			return nil, false
 		}
 		if cfg.isBinary() && cfg.child.Exited() {
 			r.Inconclusive(fmt.Sprintf("case %d (%s): the executable is gone: %v", cs.idx, cfg.name, err))
-			return
+			return nil, false
 		}
 		if len(faultsOf) > 0 {
 			// The back end misbehaves: a call failing as a whole reports nothing (present or missing).
 			r.Count("fault.call-error." + cfg.name)
-			return
+			return nil, false
 		}
 		r.Eval()
 		r.Violation(base+":"+cs.api+":error", "a well-formed FindMissingBlobs request was answered with an error: "+err.Error(),
 			witness(map[string]any{"error": err.Error()}))
-		return
+		return nil, false
 	}
 
 	// --- judge -----------------------------------------------------------------------------
@@ -1035,7 +1086,7 @@ func (w *world) runCase(cs *caseSpec) {
 
 	// Alignment: the response must be a subsequence of the request; a request position the
 	// response skips was reported present.
-	reportedMissing := make([]bool, cs.n)
+	reportedMissing = make([]bool, cs.n)
 	j := 0
 	for i := range orig {
 		if j < len(resp) && proto.Equal(resp[j], orig[i]) {
@@ -1115,6 +1166,9 @@ func (w *world) runCase(cs *caseSpec) {
 		key := base + ":" + rp.class + ":" + rep
 		if rp.fault != nil {
 			key = base + ":" + rp.class + ":" + rp.fault.name + ":" + rep
+		}
+		if i < len(jo.posTag) && jo.posTag[i] != "" {
+			key = base + ":" + rp.class + ":" + jo.posTag[i] + ":" + rep
 		}
 		if flagged[key] {
 			continue // one witness per class and case
@@ -1215,6 +1269,7 @@ func (w *world) runCase(cs *caseSpec) {
 	}
 	r.Sample(map[string]any{"case": cs.idx, "slice": cs.slice, "config": cfg.name, "api": cs.api, "layout": cs.layout, "length": cs.n,
 		"traffic_goroutines": cs.traffic, "kinds": truncate(cs.layoutString(), 100), "reported_missing": missing})
+	return reportedMissing, true
 }
 
 func truncate(s string, n int) string {
